@@ -186,7 +186,7 @@ class Monitor:
                 self.v("frame", ctx, "delivery wrote stack bytes outside the 5-byte frame",
                        f"step {k}: changed offsets {[hex(self.lo + i) for i in other[:8]]}")
             self.frames.append({"pre": dict(cur), "regs": {r: (B if self.order == "pre" else A)[r] for r in REGS},
-                                "src": src, "step": k, "imr_written": False})
+                                "src": src, "cand": cand & 0x0F, "step": k, "imr_written": False})
             for bit in (1, 2, 4, 8):
                 if cand & bit:
                     self.req.pop(bit, None)
@@ -319,7 +319,10 @@ class Monitor:
             if isr_writer:
                 allowed = 0x0F
             if reti_frame is not None and self.model == "rs":
-                allowed |= SRC_BITS.get(str(reti_frame["src"]), 0)   # documented: RETI clears the delivered status bit
+                # documented: RETI clears the delivered status bit.  "Delivered" is judged from the machine state at
+                # delivery (status bits that were pending AND enabled by their mask bit), not from the source name the
+                # model reports, so a model that credits a masked source is not believed.
+                allowed |= int(reti_frame.get("cand", SRC_BITS.get(str(reti_frame["src"]), 0)))
                 how.append(f"at RETI of the {reti_frame['src']} handler")
             if B["pw"] == 2:
                 allowed |= 0x07   # documented assumption in CoreRuntime::step + unit test off_clears_non_onk_isr_and_pending
